@@ -132,6 +132,7 @@ async def part_socks(out, args, rng, wd, origin):
             ((b"ali\xffce", b"s3cret"), False, "non-UTF-8 user"),
             ((b"alice\0", b"s3cret"), False, "user with NUL"),
             ((b"ALICE", b"s3cret"), False, "case-changed user"),
+            ((b"crashme", b"x"), False, "user for whom the auth command dies from a signal"),
         ]
         method_sets = [[0], [2], [0, 2], [2, 0], [1], [0x80], [0xFF], [1, 0x80, 2], [0, 1, 2, 0x80], [2, 2], []]
         n = 0
@@ -193,6 +194,13 @@ async def part_socks(out, args, rng, wd, origin):
         table.set({(b"erin", b"good")})
         for (u, p) in ((b"erin", b"good"), (b"erin", b"bad"), (b"erin", b"good"), (b"frank", b"good"), (b"erin", b"goo")):
             hist.append((time.time(), u, p, await attempt(u, p)))
+        # credentials whose concatenation equals a cached accepted pair are different credentials
+        for (u, p) in ((b"eri", b"ngood"), (b"ering", b"ood"), (b"eringood", b""), (b"", b"eringood")):
+            ok = await attempt(u, p)
+            out.case()
+            out.nontrivial(("cache-collision", u, p))
+            if ok:
+                out.violation("cached password verdict reused for different credentials", {"cached": "erin/good", "accepted": "%s/%s" % (u.decode(), p.decode())})
         table.set(set())  # revoke
         hist.append((time.time(), b"erin", b"good", await attempt(b"erin", b"good")))   # may still be cached
         hist.append((time.time(), b"erin", b"bad", await attempt(b"erin", b"bad")))
